@@ -2563,12 +2563,11 @@ class Recipe:
                 if isinstance(dest, PlateSlicer):
                     dest = deepcopy(dest)
                     dest.plate = self.results[dest_name]
-                else:
-                    dest = self.results[dest_name]
-
-                self.results[dest_name] = dest.fill_to(solvent, quantity)
+                    self.results[dest_name] = dest.fill_to(solvent, quantity)
+                    step.to.append(self.results[dest_name])
+                # (a container or a whole plate has been filled above: filling it again would add the rounding residue
+                # of the first fill, which is refused when the target is the capacity)
                 step.substances_used.add(solvent)
-                step.to.append(self.results[dest_name])
 
         if len(self.used) != len(self.results):
             raise ValueError("Something declared as used wasn't used.")
